@@ -52,6 +52,8 @@ type WorkerReport struct {
 	StrayRuns      int               `json:"stray_runs"`
 	Samples        []json.RawMessage `json:"samples"`
 	HashFile       string            `json:"hash_file"`
+	NextRun        int               `json:"next_run"`
+	Poisoned       bool              `json:"poisoned"`
 }
 
 func newReport() *WorkerReport {
@@ -80,6 +82,10 @@ func (w *WorkerReport) add(s *Spec, st *RunStat) {
 	w.Faults["preempt"] += int(st.Switches)
 	w.Faults["preempt_in_flight"] += int(st.InFlightSw)
 	w.Faults["gc"] += int(st.GCs)
+	w.Faults["lock_blocked_switch"] += int(st.Blocked)
+	if st.Deadlock {
+		w.Faults["deadlock_detected"]++
+	}
 	w.Faults["cancel"] += st.Cancel
 	w.Faults["cb_panic"] += st.CBPanic
 	w.Faults["goexit_abandon"] += st.Goexit
@@ -248,6 +254,14 @@ func cmdBatch(args []string) int {
 				}
 			}
 		}
+		rep.NextRun = run + 1
+		if rr.Stat.Unwound {
+			// tasks were unwound by panic out of library code: locks the library
+			// holds at package level may never be released. Continue in a fresh
+			// process (the orchestrator restarts this worker at NextRun).
+			rep.Poisoned = true
+			break
+		}
 		if len(rep.Samples) < 2 && rr.Stat.Nontrivial && len(spec.Decisions) < 40 && rr.Stat.Ops <= 8 {
 			if b, err := json.Marshal(sampleOf(spec, rr.Stat)); err == nil && len(b) < 6000 {
 				rep.Samples = append(rep.Samples, b)
@@ -271,6 +285,9 @@ func cmdBatch(args []string) int {
 	if err := writeJSONFile(filepath.Join(*out, fmt.Sprintf("worker-%s.json", *tag)), rep); err != nil {
 		fmt.Fprintln(os.Stderr, "simworker: cannot write report:", err)
 		return 2
+	}
+	if rep.Poisoned {
+		return 4
 	}
 	return 0
 }
